@@ -152,6 +152,10 @@ impl LoopBudget {
     }
 }
 
+#[cfg(googlefonts_fontations_verif)]
+#[path = "/verif/harness/incrate/engine.rs"]
+mod verif_harness;
+
 #[cfg(test)]
 use mock::MockEngine;
 
